@@ -332,3 +332,107 @@ func init() {
 		return checkFileNoCrash(c)
 	})
 }
+
+// NamesCase: RunFiles with processFilenames = true searches the *names* of the
+// files (and of the entries of a directory) instead of their contents. Find commands
+// only: a replace command would rename files.
+type NamesCase struct {
+	Src   string   `json:"src"`
+	Names []string `json:"names"` // files created in a scratch directory, passed in this order
+	Dir   bool     `json:"dir"`   // pass the directory itself instead of the files
+}
+
+func checkNamesNoCrash(c NamesCase) (sig, what string, nmatch int) {
+	v, err, p := CompileSafe(c.Src)
+	if p != nil || err != nil {
+		return "compile-error", c.Src, 0
+	}
+	dir, derr := os.MkdirTemp(scratchDir(), "c09n-")
+	if derr != nil {
+		panic(derr)
+	}
+	defer os.RemoveAll(dir)
+	var paths []string
+	for _, n := range c.Names {
+		os.WriteFile(filepath.Join(dir, n), []byte("content of "+n), 0o644)
+		paths = append(paths, filepath.Join(dir, n))
+	}
+	if c.Dir {
+		paths = []string{dir}
+	}
+	before := snapshotDir(dir)
+	setStepLimit(vmLimitFile)
+	var res RunResult
+	func() {
+		defer func() {
+			res.Steps = vmSteps()
+			setStepLimit(0)
+			if r := recover(); r != nil {
+				if isBudgetPanic(r) {
+					res.OverBudget = true
+					return
+				}
+				res.Panic = capturePanic(r)
+			}
+		}()
+		res.Matches = v.RunFiles(paths, engine.NOTHING, true)
+	}()
+	if res.OverBudget {
+		return "", "", 0
+	}
+	if res.Panic != nil {
+		return res.Panic.Sig(), fmt.Sprintf("%s over the names %v (directory passed: %v): RunFiles(processFilenames) panicked: %s", c.Src, c.Names, c.Dir, res.Panic.Sig()), 0
+	}
+	if d := diffSnap(before, snapshotDir(dir), nil); d != "" {
+		return "names-touched-files", fmt.Sprintf("%s over the names %v: a find command changed the directory: %s", c.Src, c.Names, d), 0
+	}
+	return "", "", len(res.Matches)
+}
+
+func init() {
+	registerReplay("namescrash", func(raw json.RawMessage) (string, string) {
+		var c NamesCase
+		if err := json.Unmarshal(raw, &c); err != nil {
+			return "bad-replay-file", err.Error()
+		}
+		sig, what, _ := checkNamesNoCrash(c)
+		return sig, what
+	})
+}
+
+var c09Names = []string{"invoice-2024.txt", "invoice-7.txt", "notes.txt", "a b.txt", "été.md", "x", "report_final_v2.pdf", "12", ".hidden", "ab12ab"}
+var c09NamePrograms = []string{
+	"find all 'invoice-' (at least 1 digit) = year",
+	"find all at least 1 digit",
+	"find last 1 '.' (at least 1 letter) = ext file end",
+	"find all word start at least 1 letter word end",
+	"find top 1 'zzz'",
+	"find all 'a' find all 'notes'",
+	"set d to pattern at least 1 digit find all d find all '-' d",
+	"find skip 1 in 'a', 'b', '1' to '3'",
+	"find all @/(\\d+)\\.(txt|md)/",
+}
+
+func TestC09Names(t *testing.T) {
+	seedNote(t)
+	StartWatchdog("C09", 120*time.Second)
+	st := NewStats("C09", "names", "find programs (one and two commands, captures, definitions, regex) run through RunFiles(files, NOTHING, processFilenames = true) over 1..5 file names in a drawn order, or over their directory; any panic is a violation and the directory must be unchanged; non-trivial = some name has a match and a later one has none; distinct by (program, names, directory)")
+	defer st.Write()
+	rapid.Check(t, func(t *rapid.T) {
+		c := NamesCase{Src: rapid.SampledFrom(c09NamePrograms).Draw(t, "prog"), Dir: rapid.IntRange(0, 3).Draw(t, "dir") == 0}
+		c.Names = rapid.SliceOfNDistinct(rapid.SampledFrom(c09Names), 1, 5, rapid.ID[string]).Draw(t, "names")
+		st.Eval()
+		SetInflight(func() string { return jsonStr(Failure{Property: "C09", Kind: "namescrash", Case: c}) })
+		sig, what, n := checkNamesNoCrash(c)
+		ClearInflight()
+		if sig == "compile-error" {
+			t.Fatalf("HARNESS: does not compile: %s", what)
+		}
+		if sig != "" {
+			Fail(t, Failure{Property: "C09", Kind: "namescrash", What: what, Case: c, Sig: sig})
+		}
+		if n > 0 {
+			st.NonTrivial(jsonStr(c), func() any { return c })
+		}
+	})
+}
